@@ -63,9 +63,12 @@ def run(ck, tier):
         c04._byte_lengths(c05._Sub(ck, "R-C01-units", ""), p)
     except Exception as e:
         ck.refuted("R-C01-units", "internal:%s" % type(e).__name__, "", "rule could not run: %s" % e)
+    from ..prover import Budget
     for sub in (_consumers, _lexer, _loops, _spans, _precond, _total, _twin_scans, _md_breaks):
         try:
             sub(ck, p)
+        except Budget as e:
+            ck.undecided("R-C01-" + sub.__name__.strip("_"), "budget:%s" % sub.__name__.strip("_"), "", "time budget exceeded (%s): not decided" % e)
         except Exception as e:      # a rule that cannot run must not vouch
             import traceback
             ck.refuted("internal", sub.__name__, "", "rule raised: %s" % traceback.format_exc()[-800:])
